@@ -18,6 +18,9 @@ def base_frame(rnd, nrows):
     for c in range(ncols):
         kind = rnd.choice(['real', 'int', 'string', 'date', 'bool'])
         name = '%s%d' % (kind[0], c)
+        if c > 0 and rnd.random() < 0.3:
+            # a field whose name extends another field's name (amount / amount_net)
+            name = '%s_%s' % (list(data)[-1], name)
         if kind == 'real':
             vals = [rnd.choice([-2.5, -1.0, 0.0, 0.5, 1.0, 2.0, 3.5, 10.0]) for _ in range(nrows)]
             if rnd.random() < 0.4 and nrows:
@@ -53,7 +56,7 @@ def perturb(rnd, df):
     for _ in range(rnd.randint(1, 3)):
         c = rnd.choice(cols)
         i = rnd.randrange(len(df))
-        kind = c[0]
+        kind = c.rsplit('_', 1)[-1][0]
         if kind == 'r':
             df.loc[i, c] = rnd.choice([-100.0, 100.0, np.nan, 0.25])
         elif kind == 'i':
@@ -133,7 +136,7 @@ def one_run(rnd, df, cdict, outpath, opts, eps):
     ev['inplace'] = bool(opts['in_place'])
     ev['writeall'] = bool(opts['write_all'])
     if v is None:
-        ev.update(anyfailed=True, nfail=[], npass=0, nfailrec=0, outrows=[], hasdetection=False,
+        ev.update(rowcounts_ok=True, anyfailed=True, nfail=[], npass=0, nfailrec=0, outrows=[], hasdetection=False,
                   fileexists=bool(outpath and os.path.exists(outpath)), filerows=[], inputchanged=False)
         return ev
     ev['anyfailed'] = v.failures > 0
@@ -172,6 +175,29 @@ def one_run(rnd, df, cdict, outpath, opts, eps):
         except Exception as ex:
             ev['raised'] = 'output file unreadable: %s' % type(ex).__name__
     ev['inputchanged'] = not frames_equal(work, before)
+    # in the outputs themselves a record's failure count is its number of false flags
+    ev['rowcounts_ok'] = True
+    try:
+        if det is not None and 'n_failures' in det.columns:
+            okcols = [c for c in det.columns if str(c).endswith('_ok')]
+            if okcols:
+                for j in range(len(det)):
+                    nf = sum(1 for c in okcols for x in [det[c].iloc[j]]
+                             if (x is False or (hasattr(x, 'dtype') and not pd.isna(x) and not bool(x)) or x in ('false', '0', 0) and x is not None and not (isinstance(x, float) and pd.isna(x)))
+                             and not (isinstance(x, float) and pd.isna(x)))
+                    if nf != int(det['n_failures'].iloc[j]):
+                        ev['rowcounts_ok'] = False
+        if opts['in_place'] and ev['anyfailed'] and v.detection is not None:
+            if 'n_failures' not in work.columns:
+                ev['rowcounts_ok'] = False
+            else:
+                got = [(-1 if pd.isna(x) else int(x)) for x in work['n_failures'].tolist()]
+                if got != ev['nfail']:
+                    ev['rowcounts_ok'] = False
+                    ev['inplace_counts'] = got
+    except Exception as ex:
+        ev['rowcounts_ok'] = False
+        ev['rowcounts_error'] = '%s: %s' % (type(ex).__name__, str(ex)[:120])
     return ev
 
 
